@@ -183,6 +183,31 @@ def runner(rep, tier, seed, replay):
                 rep.violation("hang/sigpipe", "`%s` (%s) did not terminate: the endless writer was not stopped when its reader exited" % (ln, ent), case, feat)
             elif len(mk) != 1 or mk[0].get("argv") != [want]:
                 rep.violation("status/sigpipe", "`%s` (%s): status after the pipeline %s, expected %s" % (ln, ent, [m.get("argv") for m in mk], want), case, feat)
+    # a stage that is stopped and continued from outside while the pipeline runs has not terminated: the shell resumes only
+    # after it has really ended, with its status (controller stage: stop the last / the first stage, wait until it is stopped,
+    # continue it, exit; the other stage goes on for a while, leaves a marker and exits 7 / 0)
+    ctl = ("while [ ! -s w.pid ]; do :; done; p=$(cat w.pid); kill -STOP $p; "
+           "while ! grep -q '^State:.T' /proc/$p/status; do :; done; kill -CONT $p; "
+           "while grep -q '^State:.T' /proc/$p/status; do :; done")
+    wrk = "echo $$ > w.pid; sleep 1; vmk W 0; exit %d"
+    sc = [("sh ctl.sh | sh wrk.sh ; vmk 9 0 $?", 7, "7"), ("sh wrk.sh | sh ctl.sh ; vmk 9 0 $?", 5, "0"),
+          ("sh ctl.sh | vst m mode=none | sh wrk.sh ; vmk 9 0 $?", 3, "3")]
+    for ent in ("c", "script"):
+        cres = run_cases([{"entry": ent, "text": ln + ("\n" if ent == "script" else ""), "timeout": 40, "want_files": False,
+                           "files": {"ctl.sh": ctl + "\n", "wrk.sh": (wrk % ex) + "\n"}} for ln, ex, _ in sc])
+        for (ln, ex, want), res in zip(sc, cres):
+            rep.cov["evaluations"] += 1
+            feat = {"n": ln.count("|") + 1, "kinds": ["stopped-and-continued"], "payload": "none", "exit": ex, "entry": ent}
+            case = {"scenario": {"stopcont": True, "entry": ent}, "text": ln, "status": res.get("status"), "stderr": res.get("stderr", "")[-300:]}
+            ids = [r.get("id") for r in res.get("log", []) if r.get("h") == "mk" and r.get("id") in ("W", "9")]
+            mk = [r for r in res.get("log", []) if r.get("h") == "mk" and r.get("id") == "9"]
+            if res.get("timed_out"):
+                rep.violation("hang/stopcont", "`%s` (%s) did not terminate" % (ln, ent), case, feat)
+            elif ids != ["W", "9"]:
+                rep.violation("resumed-early/stopcont", "`%s` (%s): the shell went on before the stage that had been stopped and continued "
+                              "ended (markers %s, status %s)" % (ln, ent, ids, [m.get("argv") for m in mk]), case, feat)
+            elif mk[0].get("argv") != [want]:
+                rep.violation("status/stopcont", "`%s` (%s): status after the pipeline %s, expected %s" % (ln, ent, mk[0].get("argv"), want), case, feat)
     # (B) strace sample validated against the kernel descriptor model
     sample = rnd.sample(pick, min(len(pick), 25 if tier == "quick" else 200))
     runs = [c08.run_traced("vmk 0 0\n%s\nvmk 1 0\n" % render(s), "c02") for s in sample]
